@@ -1,1 +1,247 @@
-import CnlModel.Layered
+import CnlProofs.Scaled
+/-!
+# C01 — `scaled_integer` `+`, `-`, `*` and unary `-` are exact on `rep · radix^exponent`
+
+`sc T e ρ v` is the number `scaled_integer<T, power<e, ρ>>` with representation value `v`
+(`T` a built-in integer type of **any** width `bits ≥ 1`, signed or unsigned; `e` any exponent;
+`ρ ≥ 2` any radix); it denotes `v · ρ^e`.  `Layered.bin / un` are the executable model of the
+operators (`scaled/binary_operator.h`, `scaled/unary_operator.h`, `scaled/definition.h`,
+`num_traits/scale.h`, `power_value.h`, the wrapper dispatch of `wrapper/binary_arithmetic_operator.h`).
+
+With `c = min eL eR`, `aligned ρ eL c l = l · ρ^(eL-c)` is the left operand re-expressed at the
+common exponent `c` (an integer — the exponent difference is never negative, `no_division`), so
+`l · ρ^eL = aligned ρ eL c l · ρ^c`, and sums / differences of denoted values are sums / differences
+of aligned representations at exponent `c`.  `T = usualArith L R` is the C++ result type of the
+built-in operator on the two (promoted) representation types.
+
+* `add_sub_exact` — `+`/`-`: result type `T`, exponent `min eL eR`, representation exactly
+  `aligned l ± aligned r`, whenever (the property's restriction) the aligned operands fit their
+  promoted representation types and the exact result fits `T`.
+* `no_digit_discarded` — the result re-expressed at any finer exponent `b` is the sum/difference of
+  the operands re-expressed at `b`: no low-order digit of either operand is lost.
+* `mul_exact` — `*`: exponent `eL + eR`, representation exactly `l · r`, whenever that fits `T`.
+* `guard_characterised`, `guard_iff`, `mul_guard_characterised` — for signed (promoted)
+  representation types the restriction is *exactly* the set of inputs on which the evaluation is
+  defined; outside it the evaluation executes a signed overflow.  `unsigned_wraps`,
+  `mul_unsigned_wraps`: for an unsigned common type nothing is undefined, the result is reduced
+  modulo `2^bits`.
+* `neg_exact`, `neg_guard_characterised`, `neg_unsigned_wraps` — unary minus.
+* `lifted_builtin_right/left` — a built-in integer operand behaves as exponent 0.
+* `wellformed_iff` — the hypothesis `PowOk S k ρ` (the instantiation of `power_value<S, k, ρ>`
+  compiles) is exactly "the model does not report an ill-formed program".
+
+`PowOk` is trivially true for equal exponents (`k = 0`).
+-/
+namespace Cnl.C01
+open Cnl Cnl.Spec Cnl.Layered Cnl.ScaledP
+open Cnl.Elastic (AOp.toBin)
+
+/-- the alignment of the operands of `+`/`-` multiplies, it never divides: both exponent
+differences are non-negative, one of them is zero -/
+theorem no_division (eL eR : Int) :
+    0 ≤ eL - min eL eR ∧ 0 ≤ eR - min eL eR ∧ (eL - min eL eR = 0 ∨ eR - min eL eR = 0) := by omega
+
+/-- `+` and `-` are exact at the smaller exponent (all widths, exponents, radixes) -/
+theorem add_sub_exact (op : AOp) (hop : op = .add ∨ op = .sub)
+    (L R : IntTy) (hL : 1 ≤ L.bits) (hR : 1 ≤ R.bits) (eL eR : Int) (ρ : Nat) (hρ : 2 ≤ ρ)
+    (l r : Int) (hl : L.InRange l) (hr : R.InRange r)
+    (hwL : PowOk L (eL - min eL eR).toNat ρ) (hwR : PowOk R (eR - min eL eR).toNat ρ)
+    (hal : (promote L).InRange (aligned ρ eL (min eL eR) l))
+    (har : (promote R).InRange (aligned ρ eR (min eL eR) r))
+    (hres : (usualArith L R).InRange (exact op (aligned ρ eL (min eL eR) l) (aligned ρ eR (min eL eR) r))) :
+    Layered.bin (AOp.toBin op) (sc L eL ρ l) (sc R eR ρ r)
+      = .ok (sc (usualArith L R) (min eL eR) ρ
+              (exact op (aligned ρ eL (min eL eR) l) (aligned ρ eR (min eL eR) r))) := by
+  have hring : IsRing op := by rcases hop with h | h <;> simp [IsRing, h]
+  rw [bin_aligned op hop L R hL hR eL eR ρ hρ l r hl hr hwL hwR hal har,
+    cBin_ring_exact op hring (usualArith_alTy L R eL eR)
+      (fun hs => ⟨inRange_common_left hal (Or.inl hs), inRange_common_right har (Or.inl hs)⟩) hres]
+  rfl
+
+/-- radix 2, the common case: `PowOk` is the `static_assert` of `power_value` -/
+theorem add_sub_exact_radix2 (op : AOp) (hop : op = .add ∨ op = .sub)
+    (L R : IntTy) (hL : 1 ≤ L.bits) (hR : 1 ≤ R.bits) (eL eR : Int)
+    (l r : Int) (hl : L.InRange l) (hr : R.InRange r)
+    (hwL : eL = min eL eR ∨ (eL - min eL eR).toNat < (promote L).digits)
+    (hwR : eR = min eL eR ∨ (eR - min eL eR).toNat < (promote R).digits)
+    (hal : (promote L).InRange (l * 2 ^ (eL - min eL eR).toNat))
+    (har : (promote R).InRange (r * 2 ^ (eR - min eL eR).toNat))
+    (hres : (usualArith L R).InRange (exact op (l * 2 ^ (eL - min eL eR).toNat) (r * 2 ^ (eR - min eL eR).toNat))) :
+    Layered.bin (AOp.toBin op) (sc L eL 2 l) (sc R eR 2 r)
+      = .ok (sc (usualArith L R) (min eL eR) 2
+              (exact op (l * 2 ^ (eL - min eL eR).toNat) (r * 2 ^ (eR - min eL eR).toNat))) := by
+  apply add_sub_exact op hop L R hL hR eL eR 2 (Nat.le_refl 2) l r hl hr _ _ hal har hres
+  · rcases hwL with h | h
+    · left; omega
+    · right; simpa using h
+  · rcases hwR with h | h
+    · left; omega
+    · right; simpa using h
+
+/-- no low-order digit is discarded: at every exponent `b` at or below the result's, the result is
+the exact sum / difference of the two operands expressed at `b` -/
+theorem no_digit_discarded (op : AOp) (hop : op = .add ∨ op = .sub) (ρ : Nat) (eL eR b : Int)
+    (hb : b ≤ min eL eR) (l r : Int) :
+    aligned ρ (min eL eR) b (exact op (aligned ρ eL (min eL eR) l) (aligned ρ eR (min eL eR) r))
+      = exact op (aligned ρ eL b l) (aligned ρ eR b r) := by
+  have h1 := aligned_aligned ρ (show min eL eR ≤ eL by omega) hb l
+  have h2 := aligned_aligned ρ (show min eL eR ≤ eR by omega) hb r
+  rcases hop with h | h <;> subst h <;> simp only [exact]
+  · rw [aligned_add, h1, h2]
+  · rw [aligned_sub, h1, h2]
+
+/-- `*` is exact, the exponents add: no alignment, no condition other than the product fitting -/
+theorem mul_exact (L R : IntTy) (hL : 1 ≤ L.bits) (hR : 1 ≤ R.bits) (eL eR : Int) (ρ : Nat)
+    (l r : Int) (hl : L.InRange l) (hr : R.InRange r)
+    (hres : (usualArith L R).InRange (l * r)) :
+    Layered.bin .mul (sc L eL ρ l) (sc R eR ρ r) = .ok (sc (usualArith L R) (eL + eR) ρ (l * r)) := by
+  have h := bin_direct .mul (Or.inl rfl) L R eL eR ρ l r
+  have hring : IsRing .mul := by simp [IsRing]
+  rw [show AOp.toBin .mul = BinOp.mul from rfl] at h
+  rw [h, show BinOp.mul = AOp.toBin .mul from rfl, cBin_ring_exact .mul hring rfl
+      (fun hs => ⟨inRange_common_of_left hL hl (Or.inl hs), inRange_common_of_right hR hr (Or.inl hs)⟩) hres]
+  rfl
+
+/-- signed promoted representation types: the evaluation of `+`/`-` is defined **exactly** on the
+property's restriction, and is a signed overflow outside it -/
+theorem guard_characterised (op : AOp) (hop : op = .add ∨ op = .sub)
+    (L R : IntTy) (hL : 1 ≤ L.bits) (hR : 1 ≤ R.bits) (eL eR : Int) (ρ : Nat) (hρ : 2 ≤ ρ)
+    (l r : Int) (hl : L.InRange l) (hr : R.InRange r)
+    (hwL : PowOk L (eL - min eL eR).toNat ρ) (hwR : PowOk R (eR - min eL eR).toNat ρ)
+    (hsL : (promote L).signed = true) (hsR : (promote R).signed = true) :
+    Layered.bin (AOp.toBin op) (sc L eL ρ l) (sc R eR ρ r)
+      = if (promote L).InRange (aligned ρ eL (min eL eR) l) ∧ (promote R).InRange (aligned ρ eR (min eL eR) r)
+            ∧ (usualArith L R).InRange (exact op (aligned ρ eL (min eL eR) l) (aligned ρ eR (min eL eR) r))
+        then .ok (sc (usualArith L R) (min eL eR) ρ (exact op (aligned ρ eL (min eL eR) l) (aligned ρ eR (min eL eR) r)))
+        else .ub .signedOverflow :=
+  bin_signed_guard op hop L R hL hR eL eR ρ hρ l r hl hr hwL hwR hsL hsR
+
+/-- … in particular the model returns a value iff the restriction holds -/
+theorem guard_iff (op : AOp) (hop : op = .add ∨ op = .sub)
+    (L R : IntTy) (hL : 1 ≤ L.bits) (hR : 1 ≤ R.bits) (eL eR : Int) (ρ : Nat) (hρ : 2 ≤ ρ)
+    (l r : Int) (hl : L.InRange l) (hr : R.InRange r)
+    (hwL : PowOk L (eL - min eL eR).toNat ρ) (hwR : PowOk R (eR - min eL eR).toNat ρ)
+    (hsL : (promote L).signed = true) (hsR : (promote R).signed = true) :
+    (∃ v, Layered.bin (AOp.toBin op) (sc L eL ρ l) (sc R eR ρ r) = .ok v)
+      ↔ ((promote L).InRange (aligned ρ eL (min eL eR) l) ∧ (promote R).InRange (aligned ρ eR (min eL eR) r)
+          ∧ (usualArith L R).InRange (exact op (aligned ρ eL (min eL eR) l) (aligned ρ eR (min eL eR) r))) := by
+  rw [guard_characterised op hop L R hL hR eL eR ρ hρ l r hl hr hwL hwR hsL hsR]
+  split
+  · rename_i h; exact ⟨fun _ => h, fun _ => ⟨_, rfl⟩⟩
+  · rename_i h
+    constructor
+    · intro ⟨v, hv⟩; cases hv
+    · intro h'; exact absurd h' h
+
+/-- unsigned common type (some operand of unsigned type of rank ≥ `int` and ≥ the other's):
+nothing is undefined once the aligned operands fit; the result is reduced modulo `2^bits` -/
+theorem unsigned_wraps (op : AOp) (hop : op = .add ∨ op = .sub)
+    (L R : IntTy) (hL : 1 ≤ L.bits) (hR : 1 ≤ R.bits) (eL eR : Int) (ρ : Nat) (hρ : 2 ≤ ρ)
+    (l r : Int) (hl : L.InRange l) (hr : R.InRange r)
+    (hwL : PowOk L (eL - min eL eR).toNat ρ) (hwR : PowOk R (eR - min eL eR).toNat ρ)
+    (hal : (promote L).InRange (aligned ρ eL (min eL eR) l))
+    (har : (promote R).InRange (aligned ρ eR (min eL eR) r))
+    (hT : (usualArith L R).signed = false) :
+    Layered.bin (AOp.toBin op) (sc L eL ρ l) (sc R eR ρ r)
+      = .ok (sc (usualArith L R) (min eL eR) ρ
+              ((usualArith L R).wrap (exact op (aligned ρ eL (min eL eR) l) (aligned ρ eR (min eL eR) r)))) := by
+  have hring : IsRing op := by rcases hop with h | h <;> simp [IsRing, h]
+  rw [bin_aligned op hop L R hL hR eL eR ρ hρ l r hl hr hwL hwR hal har,
+    cBin_ring_unsigned op hring (usualArith_alTy L R eL eR) hT]
+  rfl
+
+/-- `*`, signed common type: defined exactly when the product fits -/
+theorem mul_guard_characterised (L R : IntTy) (hL : 1 ≤ L.bits) (hR : 1 ≤ R.bits) (eL eR : Int) (ρ : Nat)
+    (l r : Int) (hl : L.InRange l) (hr : R.InRange r) (hT : (usualArith L R).signed = true) :
+    Layered.bin .mul (sc L eL ρ l) (sc R eR ρ r)
+      = if (usualArith L R).InRange (l * r) then .ok (sc (usualArith L R) (eL + eR) ρ (l * r))
+        else .ub .signedOverflow := by
+  have h := bin_direct .mul (Or.inl rfl) L R eL eR ρ l r
+  have hring : IsRing .mul := by simp [IsRing]
+  rw [show AOp.toBin .mul = BinOp.mul from rfl] at h
+  rw [h, show BinOp.mul = AOp.toBin .mul from rfl, cBin_ring_signed .mul hring rfl hT
+      (inRange_common_of_left hL hl (Or.inl hT)) (inRange_common_of_right hR hr (Or.inl hT))]
+  show wrapAt _ ρ (if (usualArith L R).InRange (l * r) then _ else _) = _
+  by_cases hh : (usualArith L R).InRange (l * r) <;> simp only [hh, ite_true, ite_false] <;> rfl
+
+/-- `*`, unsigned common type: wraps -/
+theorem mul_unsigned_wraps (L R : IntTy) (eL eR : Int) (ρ : Nat) (l r : Int)
+    (hT : (usualArith L R).signed = false) :
+    Layered.bin .mul (sc L eL ρ l) (sc R eR ρ r)
+      = .ok (sc (usualArith L R) (eL + eR) ρ ((usualArith L R).wrap (l * r))) := by
+  have h := bin_direct .mul (Or.inl rfl) L R eL eR ρ l r
+  have hring : IsRing .mul := by simp [IsRing]
+  rw [show AOp.toBin .mul = BinOp.mul from rfl] at h
+  rw [h, show BinOp.mul = AOp.toBin .mul from rfl, cBin_ring_unsigned .mul hring rfl hT]
+  rfl
+
+/-- unary minus: same exponent, promoted representation type, representation exactly `-l` -/
+theorem neg_exact (L : IntTy) (hL : 1 ≤ L.bits) (e : Int) (ρ : Nat) (l : Int) (hl : L.InRange l)
+    (hres : (promote L).InRange (-l)) :
+    Layered.un .neg (sc L e ρ l) = .ok (sc (promote L) e ρ (-l)) := by
+  have hb := promote_bits_pos L
+  rw [neg_sc]
+  simp only [cNeg, IntTy.wrap_id hb (promote_inRange hL hl), arith_ok hb hres]
+  rfl
+
+/-- unary minus, signed promoted type: defined exactly when `-l` fits (i.e. `l` is not the most
+negative value of a type of rank ≥ `int`) -/
+theorem neg_guard_characterised (L : IntTy) (hL : 1 ≤ L.bits) (e : Int) (ρ : Nat) (l : Int) (hl : L.InRange l)
+    (hs : (promote L).signed = true) :
+    Layered.un .neg (sc L e ρ l)
+      = if (promote L).InRange (-l) then .ok (sc (promote L) e ρ (-l)) else .ub .signedOverflow := by
+  have hb := promote_bits_pos L
+  rw [neg_sc]
+  simp only [cNeg, IntTy.wrap_id hb (promote_inRange hL hl), arith_signed hs]
+  split <;> rfl
+
+/-- unary minus, unsigned promoted type (`unsigned`, `unsigned long`, …): wraps -/
+theorem neg_unsigned_wraps (L : IntTy) (hL : 1 ≤ L.bits) (e : Int) (ρ : Nat) (l : Int) (hl : L.InRange l)
+    (hs : (promote L).signed = false) :
+    Layered.un .neg (sc L e ρ l) = .ok (sc (promote L) e ρ ((promote L).wrap (-l))) := by
+  have hb := promote_bits_pos L
+  rw [neg_sc]
+  simp only [cNeg, IntTy.wrap_id hb (promote_inRange hL hl), arith_unsigned hs]
+  rfl
+
+/-- a built-in integer on the right is treated as a scaled integer of exponent 0 (every operator) -/
+theorem lifted_builtin_right (op : BinOp) (L R : IntTy) (eL : Int) (ρ : Nat) (l r : Int) :
+    Layered.bin op (sc L eL ρ l) (.int R, r) = Layered.bin op (sc L eL ρ l) (sc R 0 ρ r) := by
+  cases op <;> rfl
+
+/-- … and on the left (arithmetic and bitwise operators; a shift's left operand decides its type) -/
+theorem lifted_builtin_left (op : BinOp) (hs : Native.isShift op = false) (L R : IntTy) (eR : Int) (ρ : Nat) (l r : Int) :
+    Layered.bin op (.int L, l) (sc R eR ρ r) = Layered.bin op (sc L 0 ρ l) (sc R eR ρ r) := by
+  cases op <;> first | rfl | (simp [Native.isShift] at hs)
+
+/-- the well-formedness hypothesis `PowOk` is exactly "`power_value<S, k, ρ>` compiles"
+(`ρ` is an `int` template argument) -/
+theorem wellformed_iff (S : IntTy) (k ρ : Nat) (hρ : 2 ≤ ρ) (hρi : (ρ:Int) ≤ 2147483647) :
+    (∃ v, powerValueInt S k ρ = .ok v) ↔ PowOk S k ρ :=
+  powerValueInt_ok_iff S k ρ hρ hρi
+
+theorem not_wellformed_ill (S : IntTy) (k ρ : Nat) (hρ : 2 ≤ ρ) (hρi : (ρ:Int) ≤ 2147483647)
+    (h : ¬ PowOk S k ρ) : ∃ m, powerValueInt S k ρ = .ill m :=
+  powerValueInt_ill S k ρ hρ hρi h
+
+/-! Non-vacuity: concrete instances (hypotheses satisfiable, results as stated). -/
+
+-- sc(i32,-4) + sc(u16,3): 17·2^-4 + 5·2^3 = (17 + 640)·2^-4
+example : Layered.bin .add (sc i32 (-4) 2 17) (sc u16 3 2 5) = .ok (sc i32 (-4) 2 657) := by decide
+example : PowOk u16 (3 - min (-4) 3 : Int).toNat 2 ∧ (promote u16).InRange (aligned 2 3 (min (-4) 3) 5)
+    ∧ exact .add (aligned 2 (-4) (min (-4) 3) 17) (aligned 2 3 (min (-4) 3) 5) = 657 := by decide
+-- radix 10, signed 64-bit times signed 16-bit
+example : Layered.bin .mul (sc i64 (-6) 10 1234567) (sc i16 (-3) 10 (-250))
+    = .ok (sc i64 (-9) 10 (-308641750)) := by decide +kernel
+-- radix 10 alignment by 10^3
+example : Layered.bin .sub (sc i32 0 10 7) (sc i8 (-3) 10 (-5)) = .ok (sc i32 (-3) 10 7005) := by decide
+-- outside the restriction: the alignment overflows `int`
+example : Layered.bin .add (sc i32 20 2 4096) (sc i32 0 2 1) = .ub .signedOverflow := by decide
+-- unsigned common type wraps
+example : Layered.bin .sub (sc u32 0 2 1) (sc u32 0 2 2) = .ok (sc u32 0 2 4294967295) := by decide
+example : Layered.un .neg (sc i8 5 2 (-128)) = .ok (sc i32 5 2 128) := by decide
+example : Layered.bin .add (sc i16 (-2) 2 3) (.int i32, 5) = .ok (sc i32 (-2) 2 23) := by decide
+-- ill-formed instantiation: `power_value<int, 31, 2>`
+example : ¬ PowOk i32 31 2 := by decide
+
+end Cnl.C01
